@@ -1105,6 +1105,30 @@ func pubKeyCase(id string, minlen int, N *big.Int) *testCase {
 	return single(line, "paillier-keyfloor", "paillier-new-public-key", "key-size floor of newPublicKey", impl, oracle)
 }
 
+// Decrypt must refuse a ciphertext of another key (group membership check)
+func foreignCase(id string, k, other *pkey, m, r *big.Int) *testCase {
+	c := other.textbook(m, r)
+	line := fmt.Sprintf("F %s %s %s %s %s", id, zh(k.p), zh(k.q), zh(other.N), zh(c))
+	impl := ""
+	var err error
+	pan := vh.Safely(func() {
+		var ct *paillier.Ciphertext
+		if ct, err = paillier.NewCiphertext(other.pk.Group(), natPlus(c)); err != nil {
+			return
+		}
+		var pt *paillier.Plaintext
+		if pt, err = k.sk.Decrypt(ct); err == nil {
+			impl = zh(pt.Value().Big())
+		}
+	})
+	impl = errTok(err, pan, func() string { return impl })
+	oracle := "ERR"
+	if other.N.Cmp(k.N) == 0 {
+		oracle = zh(bmod(m, k.N))
+	}
+	return single(line, "paillier-foreign-ciphertext", "paillier-decrypt-foreign", "Decrypt refuses ciphertexts outside Z*_{N^2} of its key", impl, oracle)
+}
+
 // textbook formula evaluated literally by the model vs EncryptWithNonce vs math/big
 func (k *pkey) textbookCase(id string, m, r *big.Int, sk bool) *testCase {
 	line := fmt.Sprintf("T %s %s %s %s", id, zh(k.N), zh(m), zh(r))
@@ -1630,6 +1654,14 @@ func caseFromLine(line string) *testCase {
 	case "B":
 		ml, _ := strconv.Atoi(f[2])
 		return pubKeyCase(f[1], ml, uz(f[3]))
+	case "F":
+		k, err := buildKey("replay", uz(f[2]), uz(f[3]))
+		if err != nil {
+			panic(err)
+		}
+		other := keyByN(uz(f[4]))
+		m := other.oracleDecrypt(uz(f[5]))
+		return foreignCase(f[1], k, other, m, other.oracleNonce(uz(f[5]), m))
 	case "T":
 		return keyByN(uz(f[2])).textbookCase(f[1], uz(f[3]), uz(f[4]), strings.HasSuffix(f[1], "s"))
 	case "L":
@@ -1831,6 +1863,11 @@ func main() {
 		pubKeyCase("pfloor.0", 3072, k2.N), pubKeyCase("pfloor.1", 2048, k2.N),
 		pubKeyCase("pfloor.2", 3072, k3.N), pubKeyCase("pfloor.3", 2048, k3.N),
 		pubKeyCase("pfloor.4", 2048, new(big.Int).Rsh(k2.N, 1)))
+	cases = append(cases,
+		foreignCase("foreign.0", k2, kb, big.NewInt(5), big.NewInt(7)),
+		foreignCase("foreign.1", kb, k2, big.NewInt(5), big.NewInt(7)),
+		foreignCase("foreign.2", k2, k2, big.NewInt(5), big.NewInt(7)),
+		foreignCase("foreign.3", k2, k3, big.NewInt(0), big.NewInt(1)))
 	// small primes far below the floor
 	cases = append(cases, keyCase("floor.8", 2048, big.NewInt(1000003), big.NewInt(1000033)))
 
